@@ -1,7 +1,7 @@
 (* C02 -- lossless mode reproduces every sample exactly.
    Property theorems only: statement + exact + Print Assumptions. *)
 From Coq Require Import List ZArith.
-From LJT Require Import model.Huff model.Lossless proofs.LosslessProofs proofs.LosslessScanProofs proofs.LosslessBitsProofs proofs.LosslessHuffProofs proofs.LosslessSuspendProofs gen.GenLossless proofs.LosslessGenProofs.
+From LJT Require Import model.Huff model.Lossless model.LosslessPixels proofs.LosslessPixelsProofs model.LosslessBytes proofs.LosslessBytesProofs proofs.LosslessProofs proofs.LosslessScanProofs proofs.LosslessBitsProofs proofs.LosslessHuffProofs proofs.LosslessSuspendProofs gen.GenLossless proofs.LosslessGenProofs.
 Import ListNotations.
 Local Open Scope Z_scope.
 
@@ -107,6 +107,45 @@ Theorem C02_real_huffman_bitstream :
 Proof. exact real_huffman_mcu_row. Qed.
 Print Assumptions C02_real_huffman_bitstream.
 
+(* BYTE level.  The scan is a list of restart intervals (all of R MCU rows of mpr
+   MCUs, the last one 1..R rows; one interval of any length when there are no
+   restarts), every MCU a list of (table, difference).  What start_pass_lhuff,
+   encode_mcus_huff per MCU row (emit_bits with its 24-bit put_buffer, 0xFF
+   stuffing, the restart test at the start of a call, restarts_to_go /
+   next_restart_num per MCU, emit_restart = pad with 1-bits + FF RSTn) and
+   finish_pass_huff write is accepted, and the byte reader of
+   jpeg_fill_bit_buffer (FF 00 unstuffing, stop at a marker), process_restart
+   and read_restart_marker (expected RSTn) followed by the category decoder
+   return the canonical differences of every interval, up to the marker m that
+   follows the scan.  Huffman tables: any tables accepted by both derived-table
+   builders in which every category has a code of 1..16 bits. *)
+Theorem C02_scan_bytes_roundtrip :
+  forall (tabs : Z -> list Z * list Z) (cts : Z -> ctbl) (dts : Z -> dtbl),
+  (forall t, length (fst (tabs t)) = 17%nat) ->
+  (forall t, make_c_derived (fst (tabs t)) (snd (tabs t)) 16 = Some (cts t)) ->
+  (forall t, make_d_derived (fst (tabs t)) (snd (tabs t)) true 16 = Some (dts t)) ->
+  (forall t s, 0 <= s <= 16 -> 1 <= nthZ (ehufsi (cts t)) (Z.to_nat s) <= 16) ->
+  forall ri mpr R ivs m tail,
+  (1 <= mpr)%nat -> (ri = 0 \/ ((1 <= R)%nat /\ ri = Z.of_nat (R * mpr))) ->
+  ivs_ok ri mpr R ivs -> m <> 0 -> m <> 255 ->
+  exists bytes, enc_total cts ri (0, 0) (ri, 0) (concat ivs) = Some bytes /\
+    dec_intervals (huff_dec dts) (map tblseq ivs) 0 (bytes ++ 255 :: m :: tail)
+    = Some (map canon_iv ivs, Some (m, tail)).
+Proof. exact real_huffman_scan_bytes. Qed.
+Print Assumptions C02_scan_bytes_roundtrip.
+
+(* the arithmetic emit_bits (put_buffer |= code << (24 - put_bits), bytes taken
+   from bits 16..23, size_t shifts) is a bit queue: from a state holding n < 8
+   pending bits of value v it writes whole (stuffed) bytes and keeps the rest *)
+Theorem C02_emit_bits_refines_queue : forall st v n code (size : nat),
+  eb_inv st v n -> (1 <= size <= 16)%nat ->
+  exists raw st' v' n',
+    emit_bits st code (Z.of_nat size) = (flat_map stuff1 raw, st') /\
+    Forall (fun c => 0 <= c < 256) raw /\ eb_inv st' v' n' /\
+    bits_of_bytes raw ++ Lossless.bits_of n' v' = Lossless.bits_of n v ++ Lossless.bits_of size code.
+Proof. exact emit_bits_spec. Qed.
+Print Assumptions C02_emit_bits_refines_queue.
+
 (* I/O suspension in the middle of an MCU row (suspending jpeg_source_mgr):
    decode_mcus commits the bit-reader state after every completed MCU and returns
    the number completed; whatever the sequence of suspended calls (each seeing
@@ -125,6 +164,47 @@ Theorem C02_suspension_source_facts :
   gen_bitread_save_per_mcu = true /\ gen_suspend_returns_mcu_num = true /\ gen_resume_at_mcu_ctr = true.
 Proof. exact gen_suspension_facts. Qed.
 Print Assumptions C02_suspension_source_facts.
+
+(* PIXELS.  Packed buffer <-> component planes (turbojpeg-mp.c row pointers,
+   rgb_rgb_convert / null_convert / grayscale_convert on both sides) is a
+   bijection on the samples: for either row order, any pitch >= w*ps and any
+   distinct offsets < ps, distinct (row, column, slot) have distinct addresses,
+   the stores of the decompressor are read back by the compressor's loads, and no
+   other element of the buffer is changed *)
+Theorem C02_pixel_layout_bijection : forall bottomup w h pitch ps offs,
+  NoDup offs -> Forall (fun o => (o < ps)%nat) offs -> (w * ps <= pitch)%nat ->
+  (forall i x k i' x' k', (i < h)%nat -> (x < w)%nat -> (k < length offs)%nat ->
+     (i' < h)%nat -> (x' < w)%nat -> (k' < length offs)%nat ->
+     addr bottomup h pitch ps offs i x k = addr bottomup h pitch ps offs i' x' k' -> i = i' /\ x = x' /\ k = k') /\
+  (forall val buf i x k, (h * pitch <= length buf)%nat -> (i < h)%nat -> (x < w)%nat -> (k < length offs)%nat ->
+     gather bottomup h pitch ps offs (scatter bottomup w h pitch ps offs val buf) k i x = val k i x) /\
+  (forall val buf a,
+     (forall i x k, (i < h)%nat -> (x < w)%nat -> (k < length offs)%nat -> a <> addr bottomup h pitch ps offs i x k) ->
+     nth a (scatter bottomup w h pitch ps offs val buf) 0 = nth a buf 0).
+Proof. exact pixel_layout_bijection. Qed.
+Print Assumptions C02_pixel_layout_bijection.
+
+(* ... instantiated with the offsets and pixel sizes of all 12 TurboJPEG pixel
+   formats as they stand in turbojpeg.h (generated) *)
+Theorem C02_tj_pixel_roundtrip : forall tj, In tj gen_tj_layout ->
+  forall bottomup w h pitch val buf i x k,
+  (w * Z.to_nat (snd tj) <= pitch)%nat -> (h * pitch <= length buf)%nat ->
+  (i < h)%nat -> (x < w)%nat -> (k < length (slots_of tj))%nat ->
+  gather bottomup h pitch (Z.to_nat (snd tj)) (slots_of tj)
+         (scatter bottomup w h pitch (Z.to_nat (snd tj)) (slots_of tj) val buf) k i x = val k i x.
+Proof. exact tj_pixel_roundtrip. Qed.
+Print Assumptions C02_tj_pixel_roundtrip.
+
+(* tie: constants of emit_bits / flush_bits / emit_restart (24, 16, 0xFF, 8, 0xFF, 0x7F, 7,
+   JPEG_RST0, &7) as read from jclhuff.c / jpeglib.h; turbojpeg.h offset tables agree
+   with the jmorecfg.h tables of pf2cs[format], offsets distinct and below the pixel size *)
+Theorem C02_bytes_pixels_source_facts :
+  gen_byte_consts = model_byte_consts /\
+  length gen_tj_layout = 12%nat /\
+  forallb (fun p => layout_ok (fst p) (snd p)) (combine gen_tj_layout gen_jpeg_layout) = true /\
+  forallb (fun p => dec_alpha_ok (fst p) (snd p)) (combine gen_tj_layout gen_dec_alpha) = true.
+Proof. exact gen_bytes_pixels_facts. Qed.
+Print Assumptions C02_bytes_pixels_source_facts.
 
 (* tie: the predictor macros, the wiring of the fourteen [un]differencing
    functions, the first-row switch, the "& 0xFFFF" masks and the constants of the
@@ -189,6 +269,13 @@ Example C02_ex_hoisted_save_refuted :
   let (ms2, s2) := decode_mcus_hoisted _ (toy_dec 4 4) (4 - length ms1) s1 in
   ms1 ++ ms2 = [[10]; [20]; [10]; [20]] /\ ms1 ++ ms2 <> fst (decode_mcus_susp _ (toy_dec 4 4) 4 [10; 20; 30; 40]).
 Proof. exact hoisted_save_refuted. Qed.
+Example C02_ex_sizes_ok : exists ct, make_c_derived ex_bits ex_vals 16 = Some ct /\
+  (forall s, 0 <= s <= 16 -> 1 <= nthZ (ehufsi ct) (Z.to_nat s) <= 16).
+Proof. exact ex_table_sizes_ok. Qed.
+Example C02_ex_scan_bytes :
+  ivs_ok 2 2 1 ex_ivs /\
+  enc_total (fun _ => ex_ct) 2 (0, 0) (2, 0) (concat ex_ivs) = Some [128; 95; 255; 208; 9; 31; 255; 0].
+Proof. exact ex_ivs_bytes. Qed.
 Example C02_ex_prefix_code : forall tbl s rest, 0 <= s <= 16 ->
   fixed_dec tbl (fixed_code tbl s ++ rest) = Some (s, rest).
 Proof. exact fixed_code_ok. Qed.
